@@ -65,6 +65,11 @@ type asys struct {
 	shared   bool
 	held     []held
 	msgs     chan *monitor.DataChangeMessage
+	// reconnect with recreation
+	sessionValid bool
+	recreating   bool     // the next CreateSubscription starts a recreated subscription
+	resent       []uint32 // client handles of the requests re-sent by the recreation, in order
+	recreated    int      // CreateSubscription requests seen after a fault
 }
 
 func nodeName(k int) string { return fmt.Sprintf("ns=2;s=n%d", k) }
@@ -84,11 +89,36 @@ func (a *asys) handler(s *xsubs.Scripted, c *xsubs.SConn, reqID uint32, r ua.Req
 		a.held = append(a.held, held{c, reqID, r})
 		a.mu.Unlock()
 		return nil
+	case *ua.CreateSessionRequest:
+		a.mu.Lock()
+		a.sessionValid = true
+		a.mu.Unlock()
+	case *ua.ActivateSessionRequest:
+		a.mu.Lock()
+		ok := a.sessionValid
+		a.mu.Unlock()
+		if !ok {
+			return xsubs.Fault(r, ua.StatusBadSessionIDInvalid)
+		}
+	case *ua.CreateSubscriptionRequest:
+		a.mu.Lock()
+		if a.recreating {
+			// the recreated subscription starts without items; the old one is gone
+			a.items = nil
+			a.recreated++
+			a.statuses = nil
+		}
+		a.mu.Unlock()
 	case *ua.CreateMonitoredItemsRequest:
 		a.mu.Lock()
 		defer a.mu.Unlock()
 		res := make([]*ua.MonitoredItemCreateResult, len(req.ItemsToCreate))
 		a.lastWire = nil
+		if a.recreating {
+			for _, it := range req.ItemsToCreate {
+				a.resent = append(a.resent, it.RequestedParameters.ClientHandle)
+			}
+		}
 		for i, it := range req.ItemsToCreate {
 			hd := it.RequestedParameters.ClientHandle
 			a.lastWire = append(a.lastWire, hd)
@@ -138,19 +168,25 @@ func stateOf(m *monitor.NodeMonitor, sub *monitor.Subscription, a *asys) string 
 		}
 		return strings.Join(l, ",")
 	}
-	return fmt.Sprintf("next=%d handles=%s items=%s srv=%s", m.VerifNextHandle(), j(hs), j(its), j(sv))
+	var st []string
+	for _, x := range sub.VerifSub().VerifStoredItems() {
+		st = append(st, fmt.Sprintf("%d:%d:%d", x.ID, nodeIndex(x.NodeID), x.Handle))
+	}
+	sort.Strings(st)
+	return fmt.Sprintf("next=%d handles=%s items=%s srv=%s stored=%s", m.VerifNextHandle(), j(hs), j(its), j(sv), j(st))
 }
 
 func (e *env) handleSequence(seed uint64) {
 	rnd := h.NewRand(seed)
-	a := &asys{msgs: make(chan *monitor.DataChangeMessage, 1024)}
+	a := &asys{msgs: make(chan *monitor.DataChangeMessage, 1024), sessionValid: true}
 	srv, err := xsubs.StartScripted(a.handler)
 	if err != nil {
 		e.r.InfraError = err.Error()
 		return
 	}
 	defer srv.Close()
-	c, err := opcua.NewClient(srv.URL(), opcua.SecurityMode(ua.MessageSecurityModeNone), opcua.AutoReconnect(false), opcua.RequestTimeout(20*time.Second))
+	c, err := opcua.NewClient(srv.URL(), opcua.SecurityMode(ua.MessageSecurityModeNone), opcua.AutoReconnect(true),
+		opcua.ReconnectInterval(30*time.Millisecond), opcua.RequestTimeout(20*time.Second))
 	if err != nil {
 		e.r.InfraError = err.Error()
 		return
@@ -181,7 +217,47 @@ func (e *env) handleSequence(seed uint64) {
 	name := fmt.Sprintf("handles seed=%d", seed)
 	var trace []string
 	nops := 3 + rnd.Intn(4)
+	reconnectAt := -1
+	if rnd.Chance(50) {
+		reconnectAt = 1 + rnd.Intn(nops)
+	}
 	for op := 0; op < nops; op++ {
+		if op == reconnectAt {
+			// ---- the connection drops and the session is gone: the client recreates the
+			// subscription and its monitored items from the stored request objects
+			a.mu.Lock()
+			a.sessionValid, a.recreating, a.resent, a.held = false, true, nil, nil
+			before := a.recreated
+			nstored := len(sub.VerifSub().VerifStoredItems())
+			a.mu.Unlock()
+			srv.DropConns()
+			ok := xsubs.WaitFor(8*time.Second, func() bool {
+				a.mu.Lock()
+				defer a.mu.Unlock()
+				return a.recreated > before && len(a.resent) >= nstored && c.State() == opcua.Connected
+			})
+			time.Sleep(150 * time.Millisecond)
+			a.mu.Lock()
+			a.recreating = false
+			var hs []string
+			for _, x := range a.resent {
+				hs = append(hs, fmt.Sprint(x))
+			}
+			a.mu.Unlock()
+			if !ok {
+				e.r.InfraError = name + ": the client did not recreate the subscription within 8 s"
+				return
+			}
+			l := "-"
+			if len(hs) > 0 {
+				l = strings.Join(hs, ",")
+			}
+			line := "recreate " + l + " 1"
+			e.r.Hit("op:recreate")
+			e.r.Count(name+" "+strings.Join(trace, " ; ")+" ; "+line, true)
+			trace = append(trace, line)
+			e.r.Compare(e.d, line, stateOf(m, sub, a))
+		}
 		items := sub.VerifItems()
 		if len(items) > 0 && rnd.Chance(30) {
 			// ---- RemoveMonitorItems
@@ -661,7 +737,7 @@ func main() {
 	for i := 0; i < o.N(3, 30) && r.InfraError == ""; i++ {
 		e.converge(o.Seed*1000+uint64(i), i%3 == 2, i%3 == 1)
 	}
-	for _, b := range []string{"op:add", "op:add-shared-params", "op:add-with-failed-item", "op:remove", "op:remove-unknown",
+	for _, b := range []string{"op:add", "op:add-shared-params", "op:add-with-failed-item", "op:remove", "op:remove-unknown", "op:recreate",
 		"deliver:right-node", "deliver:handle-not-found", "converge:callback-subscribe", "converge:chan-subscribe", "converge:max-notifications-per-publish=2", "converge:last-equals-read"} {
 		if r.Distribution[b] == 0 {
 			r.Unreached = append(r.Unreached, b)
